@@ -145,30 +145,39 @@ def features(p):
     return ("#" in path, "{" in path, ":" in p)
 
 
+def _elements(path):
+    """number of loop iterations rtosc_match_path spends on a path: one per literal char, enumeration, {..} group"""
+    return len(re.sub(r"\{[^}]*\}|#\d+", "X", path))
+
+
 def unwind_flags(pats, al):
-    """per-loop bounds: without them the recursion of rtosc_match_args and the loops of functions a pattern never
-    reaches are unwound to the global bound behind symbolic pointers (measured: 10 s instead of 0.3 s per pattern).
-    Every bound is guarded by --unwinding-assertions."""
+    """per-loop bounds (= most back-edge takes on the unchanged code + 1). Without them the recursion of rtosc_match_args
+    and the loops of functions a pattern never reaches are unwound to the global bound behind symbolic cursors
+    (measured: 450 s instead of 3 s for a batch of {..} patterns). Every bound is guarded by --unwinding-assertions."""
     plen = max(len(p) for p in pats)
-    pathlen = max(len(p.split(":", 1)[0]) for p in pats)
+    paths = [p.split(":", 1)[0] for p in pats]
     has_e = any(features(p)[0] for p in pats)
     has_o = any(features(p)[1] for p in pats)
     typed = any(features(p)[2] for p in pats)
     nalts = max(p.count(":") for p in pats)
     altlen = max([len(a) for p in pats if ":" in p for a in p.split(":")[1:]] + [0])
     ndig = max([len(m) for p in pats for m in re.findall(r"#(\d+)", p)] + [0])
-    grp = max([len(g) for p in pats for g in re.findall(r"\{([^}]*)\}", p)] + [0])
+    groups = [g for p in paths for g in re.findall(r"\{([^}]*)\}", p)]
+    grp = max([len(g) for g in groups] + [0])
+    galts = max([g.count(",") + 1 for g in groups] + [0])
+    gsum = max([len(g.replace(",", "")) for g in groups] + [0])
+    galt = max([len(a) for g in groups for a in g.split(",")] + [0])
     us = {
         "rtosc_match_args": nalts + 1 if typed else 1,
         "rtosc_match_args.0": altlen + 1 if typed else 1,
         "rtosc_argument_string.0": al + 1 if typed else 1,
         "rtosc_argument_string.1": 5 if typed else 1,
         "rtosc_match_path.0": 1, "rtosc_match_path.1": 1,
-        "rtosc_match_path.2": pathlen + 2,
-        "rtosc_match_options.0": grp + 2 if has_o else 1,
-        "rtosc_match_options.1": grp + 2 if has_o else 1,
-        "rtosc_match_options.2": grp + 2 if has_o else 1,
-        "rtosc_match_options.3": grp + 2 if has_o else 1,
+        "rtosc_match_path.2": max(_elements(q) for q in paths) + 1,
+        "rtosc_match_options.0": gsum + 1 if has_o else 1,        # while(1): one take per spelled character
+        "rtosc_match_options.1": grp + 1 if has_o else 1,         # skip to '}'
+        "rtosc_match_options.2": galt + 1 if has_o else 1,        # skip the rest of one alternative
+        "rtosc_match_options.3": galts if has_o else 1,           # goto retry: one take per further alternative
         "rtosc_match_number.0": ndig + 1 if has_e else 1,
         "rtosc_match_number.1": al + 1 if has_e else 1,
         "strtol.0": max(ndig, al) + 2 if has_e else 1,
@@ -234,8 +243,9 @@ def match_obligations(ctx, normal, kfs):
     bi = 0
     for feat in sorted(groups):
         pats = groups[feat]
-        for i in range(0, len(pats), BATCH):
-            b = pats[i:i + BATCH]
+        bsz = BATCH if not (feat[0] or feat[1]) else 3          # {..} and #N patterns are much dearer
+        for i in range(0, len(pats), bsz):
+            b = pats[i:i + bsz]
             bi += 1
             for al in range(0, almax + 1):
                 if al == 0 and feat[2]:
